@@ -160,3 +160,39 @@ class ResolveConfigPath:
         return path_of_str(config_file) if config_file is not None and len(config_file) > 0 else \
             (path_div(self.project_root, ".thailint.yaml") if fs_exists(path_div(self.project_root, ".thailint.yaml"))
              else path_div(self.project_root, ".thailint.json"))
+
+
+# ------------------------------------------------------------------ the library entry point builds ITS orchestrator
+try:
+    from contracts.c05_parse import LoaderT, yaml_doc, file_of
+    from contracts import c07_parallel as _c07  # noqa: F401  (Orchestrator.__init__ contract)
+    _INIT_DEPS = True
+except BaseException:  # noqa
+    _INIT_DEPS = False
+
+
+def resolved_config(root, config_file):
+    return path_of_str(config_file) if config_file is not None and len(config_file) > 0 else \
+        (path_div(root, ".thailint.yaml") if fs_exists(path_div(root, ".thailint.yaml")) else path_div(root, ".thailint.json"))
+
+
+class LinterInit:
+    """C10: the library's orchestrator lints with exactly the configuration the Linter loaded (explicit file, else the
+    root's .thailint.yaml / .thailint.json) and with the Linter's project root -- nothing is re-discovered."""
+    def requires(config_file, project_root):
+        return project_root is not None and (
+            isinstance(yaml_doc(file_of(resolved_config(project_root, config_file))), dict)
+            or yaml_doc(file_of(resolved_config(project_root, config_file))) is None)
+
+    def ensures_one_configuration_one_root(self, config_file, project_root):
+        return self.project_root == project_root and self.orchestrator.project_root == project_root \
+            and self.orchestrator.config == self.config
+
+
+if _INIT_DEPS:
+    LinterInitT = LinterT.extend(config_loader=LoaderT)
+    contract(API + "Linter.__init__", props=["C10", "C05"],
+             types=dict(self=LinterInitT, config_file=Opt(Str), project_root=Opt(PathT), config_path=PathT),
+             raises=["ConfigParseError", "OSError"], no_selftest=True,
+             modifies=["self.project_root", "self.config_loader", "self.config", "self.orchestrator"],
+             inline=["src/linter_config/loader.py::LinterConfigLoader.__init__"])(LinterInit)
